@@ -743,8 +743,7 @@ def max(a, b):
 def round(x, quant=1):
     # return quant==0. ? x : sc_floor(x/quant + .5) * quant;
     # INT return quant==0 ? x : sc_div(x + quant/2, quant) * quant;
-    if type(x) is int:
-        quant = int(quant)
+    if type(x) is int and type(quant) is int:
         if quant == 0:
             return float(x)
         else:
@@ -758,8 +757,7 @@ def round(x, quant=1):
 def roundup(x, quant=1):
     # return quant==0. ? x : sc_ceil(x/quant) * quant;
     # INT return quant==0 ? x : sc_div(x + quant - 1, quant) * quant;
-    if type(x) is int:
-        quant = int(quant)
+    if type(x) is int and type(quant) is int:
         if quant == 0:
             return float(x)
         else:
@@ -773,8 +771,7 @@ def roundup(x, quant=1):
 def trunc(x, quant=1):
     # return quant==0. ? x : sc_floor(x/quant) * quant;
     # INT: return quant==0 ? x : sc_div(x, quant) * quant;
-    if type(x) is int:
-        quant = int(quant)
+    if type(x) is int and type(quant) is int:
         if quant == 0:
             return float(x)
         else:
